@@ -238,6 +238,26 @@ def _(rng, t, extra):
 	return Table() << t
 
 
+@deriv("t[:, name]", "table")
+def _(rng, t, extra):
+	return t[:, "b"]
+
+
+@deriv("t[:, j]", "table")
+def _(rng, t, extra):
+	return t[:, 1]
+
+
+@deriv("t[name, :]", "table")
+def _(rng, t, extra):
+	return t["b", :]
+
+
+@deriv("t[:, (name,)]", "table")
+def _(rng, t, extra):
+	return t[:, ("b",)]
+
+
 @deriv("window", "table")
 def _(rng, t, extra):
 	return t.window(over="c", sum_over="a", apply={"n": ("b", len)})
@@ -653,6 +673,64 @@ def run_pure_cells(chk, spec):
 				f"{spec!r}: after {spec['op']} ({'ok' if o.ok else repr(o)}) the {k} holds {short(now, 200)}; before {short(before[k], 200)}")
 			return
 
+def run_unnamed_keys(chk, spec):
+	"""read-only operations whose key is an UNNAMED vector - a derived vector, or an unnamed column of the table itself - leave that vector as it was, its
+	(missing) name included, and the table's column names with it"""
+	import warnings
+	n = 4
+	with warnings.catch_warnings():
+		warnings.simplefilter("ignore")
+		t = Table([Vector([1, 2, 1, 2]), Vector([10, 20, 30, 40], name="w"), Vector(["p", "q", "r", "s"], name="s")])
+		u = Table({"k2": [1, 2], "z": [7, 8]})
+		ext = Vector([0, 1, 0, 1])          # an unnamed vector the caller keeps (t.a % 2, a comparison ...)
+		key = {"own-unnamed-column": lambda: t.cols()[0], "external-unnamed": lambda: ext, "derived": lambda: ext}[spec["key"]]()
+		before = (M.snap_any(t), M.snap_any(ext), M.snap_any(u), t.column_names(), ext.name)
+		o = call({
+			"aggregate": lambda: t.aggregate(over=key, sum_over="w"), "aggregate-list": lambda: t.aggregate(over=[key], count_over="s"), "window": lambda: t.window(over=key, sum_over="w"),
+			"window-two-keys": lambda: t.window(over=[key, "s"], max_over="w"), "sort_by": lambda: t.sort_by(key), "sort_by-list": lambda: t.sort_by([key, "w"], reverse=[True, False]),
+			"join": lambda: t.join(u, key, "k2", expect="many_to_one"), "inner_join": lambda: t.inner_join(u, [key], ["k2"], expect="many_to_one"), "full_join": lambda: t.full_join(u, key, u["k2"], expect="many_to_one"),
+			"rejected-aggregate": lambda: t.aggregate(over=key, sum_over="no such column"),
+		}[spec["op"]])
+	chk.judged("pair", ("unnamed-keys", spec["op"], spec["key"], o.ok))
+	after = (M.snap_any(t), M.snap_any(ext), M.snap_any(u), t.column_names(), ext.name)
+	if after != before:
+		what = "table" if after[0] != before[0] or after[3] != before[3] else ("key-vector" if after[1] != before[1] or after[4] != before[4] else "other-table")
+		chk.fail("operations that return a new object never change their operands", f"frame/operation-changed-operand/{spec['op']}/unnamed-key/{what}",
+			f"{spec!r} ({'ok' if o.ok else repr(o)}): table names {before[3]!r} -> {after[3]!r}, key vector name {before[4]!r} -> {after[4]!r}")
+
+
+def run_handle_survives(chk, spec):
+	"""a column obtained from a table is that table's column: it stays so across cell / row / region / mask writes to the table (only replacing the column by
+	attribute assignment installs another object), so it shows what the table shows and a write through it changes that table"""
+	import warnings
+	n = 3
+	with warnings.catch_warnings():
+		warnings.simplefilter("ignore")
+		t = Table({"a": [1, 2, 3], "b": [4, 5, 6], "c": ["p", "q", "r"]})
+		other = Table({"x": [7, 8, 9], "y": [1, 1, 1]})
+		h = {"item": lambda: t["b"], "attr": lambda: t.b, "cols": lambda: t.cols()[1]}[spec["handle"]]()
+		w = call({
+			"cell": lambda: t.__setitem__((0, "b"), 50), "row": lambda: t.__setitem__(0, [10, 50, "z"]), "row-names": lambda: t.__setitem__((2, ["b", "c"]), [60, "y"]),
+			"row-negative": lambda: t.__setitem__((-1, slice(None)), [30, 60, "w"]), "column": lambda: t.__setitem__((slice(None), "b"), [40, 50, 60]),
+			"region-table": lambda: t.__setitem__((slice(None), ["a", "b"]), other), "region-list": lambda: t.__setitem__((slice(0, 2), ["a", "b"]), [[7, 8], [40, 50]]),
+			"mask-rows": lambda: t.__setitem__(([True, False, True], "b"), 0), "scalar-broadcast": lambda: t.__setitem__((slice(None), slice(0, 2)), 9),
+		}[spec["write"]])
+	chk.judged("pair", ("handle-survives", spec["handle"], spec["write"]))
+	if not w.ok:
+		chk.skip("handle-write-refused")
+		return
+	now = t.cols()[1]
+	if list(h._underlying) != list(now._underlying):
+		chk.fail("a column obtained from a table shows that table's cells", f"frame/handle-detached/{spec['write']}/shows-old-cells", f"{spec!r}: the handle holds {list(h._underlying)!r}, the table's column {list(now._underlying)!r}")
+		return
+	w2 = call(h.__setitem__, 1, 777)
+	if w2.ok and list(t.cols()[1]._underlying)[1] != 777:
+		chk.fail("a write through a column obtained from a table changes that table", f"frame/handle-detached/{spec['write']}/write-does-not-reach-table", f"{spec!r}: h[1] = 777 left the table's column at {list(t.cols()[1]._underlying)!r}")
+		return
+	call(setattr, h, "name", "renamed")
+	if t.column_names()[1] != "renamed":
+		chk.fail("a rename through a column obtained from a table renames that table's column", f"frame/handle-detached/{spec['write']}/rename-does-not-reach-table", f"{spec!r}: names {t.column_names()!r}")
+
 
 def run_history(chk, spec):
 	m = pool.Machine(chk, spec["seed"], spec["nsteps"], spec.get("profile", "mixed"))
@@ -662,7 +740,7 @@ def run_history(chk, spec):
 		chk.counters["history_steps"] += len(m.trace)
 
 
-RUNNERS = {"pure_cells": run_pure_cells, "refusal": run_refusal, "pair": run_pair, "history": run_history, "recompute": recompute.runner("C01")}
+RUNNERS = {"unnamed_keys": run_unnamed_keys, "handle_survives": run_handle_survives, "pure_cells": run_pure_cells, "refusal": run_refusal, "pair": run_pair, "history": run_history, "recompute": recompute.runner("C01")}
 
 def setup(chk):
 	pool.CENSUS.install()
@@ -677,6 +755,12 @@ def run(chk):
 		for w in ("vec-none", "vec-int-scalar", "cell", "row"):
 			for side in ("source", "derived"):
 				chk.case("pair", {"deriv": dname, "write": w, "side": side, "seed": rng.randrange(10**9), "object_src": True}, "pair-object-source")
+	for op in ("aggregate", "aggregate-list", "window", "window-two-keys", "sort_by", "sort_by-list", "join", "inner_join", "full_join", "rejected-aggregate"):
+		for key in ("own-unnamed-column", "external-unnamed"):
+			chk.case("unnamed_keys", {"op": op, "key": key}, "unnamed-keys")
+	for handle in ("item", "attr", "cols"):
+		for write in ("cell", "row", "row-names", "row-negative", "column", "region-table", "region-list", "mask-rows", "scalar-broadcast"):
+			chk.case("handle_survives", {"handle": handle, "write": write}, "handle-survives")
 	for op in PURE_CELL_OPS:
 		for cell in CELL_MAKERS:
 			for n in ((3,) if chk.quick() else (1, 3, 6)):
